@@ -256,7 +256,11 @@ def conc_hist(hist, cmap, variants=True):
             recs = [conc_rec(r, cmap) for r in op["recs"]]
             ops.append({"k": "new", "recs": recs, "delim": conc(op["delim"], cmap)})
         elif k == "add":
-            ops.append({"k": "add", "i": op["i"], "rec": conc_rec(op["rec"], cmap), "cs": op["cs"], "mg": op["mg"], "via": op["via"]})
+            # add_prefix(...) and add_record(Record(...)) are the same operation in the specification: every other add of a
+            # behaviour goes through add_prefix (keyword arguments case_sensitive / merge forwarded by the library)
+            nadd = sum(1 for o in ops if o["k"] == "add")
+            ops.append({"k": "add", "i": op["i"], "rec": conc_rec(op["rec"], cmap), "cs": op["cs"], "mg": op["mg"],
+                        "via": "prefix" if (nadd + len(hist)) % 2 else op["via"]})
         elif k == "chain":
             ops.append({"k": "chain", "is": list(op["is"]), "cs": op["cs"]})
         elif k == "sub":
@@ -336,13 +340,9 @@ def run_ops(args):
             w.load(op["loader"], op["data"], op.get("delim", ":"), op.get("strict", True), extra, via=op.get("via", "obj"))
         elif k == "upgrade":
             w.upgrade([tuple(x) for x in op["data"]])
-        elif k == "fresh":       # Converter(copy of the current records of converter i)
+        elif k == "fresh":       # Converter(copy of the current records of converter i), both asked the same questions
             if op["i"] <= len(w.convs):
-                c = w.convs[op["i"] - 1]
-                recs = [{"p": r.prefix, "u": r.uri_prefix, "ps": list(r.prefix_synonyms), "us": list(r.uri_prefix_synonyms),
-                         "pat": r.pattern} for r in c.records]
-                rng.shuffle(recs)
-                w.new(recs, c.delimiter, True, extra)
+                w.fresh(op["i"], extra)
         elif k == "discover":
             if op["i"] <= len(w.convs):
                 w.discover(op["i"], op["uris"], extra)
